@@ -61,6 +61,7 @@ var checks = map[string]*checkDef{
 		plan: []planItem{
 			{workload: "C09", variant: "plain", quick: 12000, thorough: 1000000},
 			{workload: "C09C", variant: "instr", quick: 20000, thorough: 1000000},
+			{workload: "C09C", variant: "instrc", quick: 600, thorough: 20000},
 			{workload: "C09", variant: "noavx2", quick: 800, thorough: 15000},
 			{workload: "C09", variant: "purego", quick: 800, thorough: 15000},
 			{workload: "C09", variant: "force32bit", quick: 480, thorough: 8000},
@@ -77,6 +78,7 @@ var checks = map[string]*checkDef{
 			{workload: "C02", variant: "plain", quick: 16000, thorough: 2000000},
 			{workload: "C02F", variant: "plain", quick: 160, thorough: 3200},
 			{workload: "C02C", variant: "instrw", quick: 6000, thorough: 300000},
+			{workload: "C02C", variant: "instrc", quick: 600, thorough: 20000},
 			{workload: "C02", variant: "noavx2", quick: 1600, thorough: 40000},
 			{workload: "C02", variant: "purego", quick: 1600, thorough: 40000},
 			{workload: "C02", variant: "force32bit", quick: 1600, thorough: 20000},
@@ -91,6 +93,7 @@ var checks = map[string]*checkDef{
 		plan: []planItem{
 			{workload: "C12", variant: "plain", quick: 8000, thorough: 1000000},
 			{workload: "C12C", variant: "instrw", quick: 3000, thorough: 150000},
+			{workload: "C12C", variant: "instrc", quick: 600, thorough: 20000},
 			{workload: "C12", variant: "purego", quick: 800, thorough: 30000},
 			{workload: "C12", variant: "noavx2", quick: 800, thorough: 30000},
 			{workload: "C12", variant: "force32bit", quick: 480, thorough: 15000},
@@ -106,6 +109,7 @@ var checks = map[string]*checkDef{
 		plan: []planItem{
 			{workload: "C15", variant: "plain", quick: 2400, thorough: 200000},
 			{workload: "C15C", variant: "instrw", quick: 1200, thorough: 60000},
+			{workload: "C15C", variant: "instrc", quick: 600, thorough: 20000},
 			{workload: "C15", variant: "purego", quick: 320, thorough: 15000},
 			{workload: "C15", variant: "noavx2", quick: 320, thorough: 15000},
 			{workload: "C15", variant: "force32bit", quick: 240, thorough: 8000},
